@@ -17,80 +17,80 @@
 #include "types.h"
 #define assert(x) __CPROVER_assert((x), "source assert: " #x)
 
-/*@unit {'name':'c18_namector', 'props':['DEV_name'], 'final_props':['C01','C18'], 'entry':'h_ctor', 'enforce':'NameTable_ctor', 'replace':['NameTable_setPlatformEncoding'],
+/*@unit {'name':'c18_namector', 'props':['C01','C18'], 'entry':'h_ctor', 'enforce':'NameTable_ctor', 'replace':['NameTable_setPlatformEncoding'],
   'defines':['U_CTOR'], 'defines_quick':['U_CTOR','MAXN=256'], 'checks':['--memory-leak-check'],
   'witness_vars':['w_len','w_plat','w_enc'],
   'assumptions':['gralloc<byte>(n) is the extracted template over malloc (exact size n, may fail)', 'the member constructor Locale2Lang::Locale2Lang (static language list -> lookup trie) is cut: it does not touch the table',
                  'memcpy is the verifier\'s built-in model (array copy, bounds checked)'],
   'claims':'NameTable::NameTable(data, length, platform, encoding) for every length <= MAXN and arbitrary bytes: reads data[0,length) only; either m_table == NULL, m_nameData == NULL and the private copy is freed exactly once (or never allocated), or the representation invariant NT_INV holds: the copy is byte-identical, length > 18, 6 + 12*count < length, m_nameData = m_table + string_offset with string_offset < length, m_nameDataLength = uint16(length - string_offset), m_platformOffset <= m_platformLastRecord < max(count,1); the table is accepted exactly when the allocation succeeds and those three header tests hold'}@*/
-/*@unit {'name':'c18_name_setplat', 'props':['DEV_name'], 'final_props':['C01','C18'], 'entry':'h_setplat', 'enforce':'NameTable_setPlatformEncoding', 'min_loops':2,
+/*@unit {'name':'c18_name_setplat', 'props':['C01','C18'], 'entry':'h_setplat', 'enforce':'NameTable_setPlatformEncoding', 'min_loops':2,
   'defines':['U_SETPLAT'], 'defines_quick':['U_SETPLAT','MAXN=256'],
   'witness_vars':['w_len','w_plat','w_enc'],
   'claims':'NameTable::setPlatformEncoding on a table satisfying NT_INV (any number of records that fits MAXN bytes): reads only records below count; if some record has the requested (platform, encoding) then m_platformOffset is the first such record and [m_platformOffset, m_platformLastRecord] is the maximal run of such records starting there (all below count); if none has, both indexes keep their values; m_platformId / m_encodingId are recorded; nothing else is written; a NameTable without string storage is left untouched'}@*/
 
-/*@unit {'name':'c18_name_langid', 'props':['DEV_name_slow'], 'tiers':['thorough'], 'final_props':['C01','C18'], 'entry':'h_langid', 'enforce':'NameTable_getLanguageId', 'replace':['strlen','Locale2Lang_getMsId'], 'min_loops':2,
+/*@unit {'name':'c18_name_langid', 'props':['PARKED_name'], 'tiers':['parked'], 'entry':'h_langid', 'enforce':'NameTable_getLanguageId', 'replace':['strlen','Locale2Lang_getMsId'], 'min_loops':2,
   'defines':['U_LANGID','TAGCOUNT_INSIDE','ORACLE_MACRO','MAXN=256'], 'timeout':3600,
   'witness_vars':['w_len','w_n','w_refused'],
   'assumptions':['strlen(s) is replaced by the assumed contract "returns the length of the NUL-terminated string s" (libc, trusted)',
                  'Locale2Lang::getMsId (static ISO language list, trie lookup; outside the table parser) is cut: contract stub that is called with the caller\'s string and returns an arbitrary 16-bit id',
                  'GAP: beyond the constructor postcondition NT_INV this unit requires 8 + 12*count <= length, i.e. that the 16-bit language-tag count behind the name records lies inside the table; the constructor only guarantees 7 + 12*count <= length (see c18_name_langid_ctorpost)'],
   'claims':'NameTable::getLanguageId(locale) on a NameTable that satisfies NT_INV and whose table holds the 2 bytes of the language-tag count (arbitrary bytes, length <= MAXN, locale of any length <= MAXN in an exact-size buffer): every read of the tag count, the tag records and the tag strings stays inside the private copy, the locale string is read only below its terminator; the result is either the id Locale2Lang::getMsId gives for the locale, or 0x8000 + t where the table has format 1, t is below the tag count, the tag records lie before the string storage, tag t lies inside the string storage, has 2*strlen(locale) bytes and each of its UTF-16BE units is <= 0x7F and equals the corresponding locale character; without table or with another format the result is the getMsId id; nothing is written'}@*/
-/*@unit {'name':'c18_name_langid_ctorpost', 'props':['DEV_name_slow_defect'], 'tiers':['thorough'], 'final_props':['C01'], 'entry':'h_langid', 'enforce':'NameTable_getLanguageId', 'replace':['strlen','Locale2Lang_getMsId'], 'min_loops':2,
+/*@unit {'name':'c18_name_langid_ctorpost', 'props':['PARKED_name'], 'tiers':['parked'], 'entry':'h_langid', 'enforce':'NameTable_getLanguageId', 'replace':['strlen','Locale2Lang_getMsId'], 'min_loops':2,
   'defines':['U_LANGID','ORACLE_MACRO','MAXN=256'], 'timeout':3600,
   'witness_vars':['w_len','w_n','w_refused'], 'replay':'name',
   'assumptions':['as c18_name_langid, without the extra requirement: exactly the constructor postcondition NT_INV'],
   'claims':'(EXPECTED TO FAIL on the unchanged tree: genuine defect) NameTable::getLanguageId on exactly the constructor postcondition: the 2-byte language-tag count at offset 6 + 12*count is read although the constructor only admits length >= 7 + 12*count - a format-1 table of exactly 7 + 12*count bytes (count >= 1) is read one byte past its end'}@*/
-/*@unit {'name':'c18_name_langid_e2e_k4', 'props':['DEV_name'], 'final_props':['C01','C18'], 'entry':'h_langid_b', 'kind':'bounded', 'unwind':4, 'unwindset':['run_langid.0:6'], 'object_bits':11, 'loop_contracts':False,
+/*@unit {'name':'c18_name_langid_e2e_k4', 'props':['C01','C18'], 'entry':'h_langid_b', 'kind':'bounded', 'unwind':4, 'unwindset':['run_langid.0:6'], 'object_bits':11, 'loop_contracts':False,
   'defines':['U_LANGID_B','U_CTOR_BODY','LBK=4','TAGCOUNT_INSIDE'], 'checks':['--memory-leak-check'], 'witness_vars':['w_b','w_n','w_loc'],
   'bound':'name table of exactly 4 bytes (exact-size buffer, every byte arbitrary), locale strings of 0..2 characters (exact-size, characters arbitrary non-NUL)',
   'assumptions':['Locale2Lang::getMsId is cut (returns an arbitrary id); the Locale2Lang member constructor is cut', 'gralloc may fail',
                  'GAP: format-1 tables whose 16-bit language-tag count does not lie inside the table (length == 7 + 12*count) are excluded: they are the genuine over-read shown by c18_name_langid_e2e_defect_*'],
   'claims':'end to end on the real code: NameTable::NameTable(table) + getLanguageId(locale) + destructor on a 4-byte table: no access outside the table copy / the locale string, nothing leaks, the table is accepted exactly when the header tests hold, and the result is exactly 0x8000 + t for the FIRST language tag t of a format-1 table that lies inside the string storage and spells the locale in UTF-16BE (tag records wholly before the string storage), else the Locale2Lang id; refused tables give the Locale2Lang id'}@*/
-/*@unit {'name':'c18_name_langid_e2e_k18', 'props':['DEV_name'], 'final_props':['C01','C18'], 'entry':'h_langid_b', 'kind':'bounded', 'unwind':4, 'unwindset':['run_langid.0:20'], 'object_bits':11, 'loop_contracts':False,
+/*@unit {'name':'c18_name_langid_e2e_k18', 'props':['C01','C18'], 'entry':'h_langid_b', 'kind':'bounded', 'unwind':4, 'unwindset':['run_langid.0:20'], 'object_bits':11, 'loop_contracts':False,
   'defines':['U_LANGID_B','U_CTOR_BODY','LBK=18','TAGCOUNT_INSIDE'], 'checks':['--memory-leak-check'], 'witness_vars':['w_b','w_n','w_loc'],
   'bound':'name table of exactly 18 bytes (exact-size buffer, every byte arbitrary), locale strings of 0..2 characters (exact-size, characters arbitrary non-NUL)',
   'assumptions':['Locale2Lang::getMsId is cut (returns an arbitrary id); the Locale2Lang member constructor is cut', 'gralloc may fail',
                  'GAP: format-1 tables whose 16-bit language-tag count does not lie inside the table (length == 7 + 12*count) are excluded: they are the genuine over-read shown by c18_name_langid_e2e_defect_*'],
   'claims':'end to end on the real code: NameTable::NameTable(table) + getLanguageId(locale) + destructor on a 18-byte table: no access outside the table copy / the locale string, nothing leaks, the table is accepted exactly when the header tests hold, and the result is exactly 0x8000 + t for the FIRST language tag t of a format-1 table that lies inside the string storage and spells the locale in UTF-16BE (tag records wholly before the string storage), else the Locale2Lang id; refused tables give the Locale2Lang id'}@*/
-/*@unit {'name':'c18_name_langid_e2e_k19', 'props':['DEV_name'], 'final_props':['C01','C18'], 'entry':'h_langid_b', 'kind':'bounded', 'unwind':4, 'unwindset':['run_langid.0:21'], 'object_bits':11, 'loop_contracts':False,
+/*@unit {'name':'c18_name_langid_e2e_k19', 'props':['C01','C18'], 'entry':'h_langid_b', 'kind':'bounded', 'unwind':4, 'unwindset':['run_langid.0:21'], 'object_bits':11, 'loop_contracts':False,
   'defines':['U_LANGID_B','U_CTOR_BODY','LBK=19','TAGCOUNT_INSIDE'], 'checks':['--memory-leak-check'], 'witness_vars':['w_b','w_n','w_loc'],
   'bound':'name table of exactly 19 bytes (exact-size buffer, every byte arbitrary), locale strings of 0..2 characters (exact-size, characters arbitrary non-NUL)',
   'assumptions':['Locale2Lang::getMsId is cut (returns an arbitrary id); the Locale2Lang member constructor is cut', 'gralloc may fail',
                  'GAP: format-1 tables whose 16-bit language-tag count does not lie inside the table (length == 7 + 12*count) are excluded: they are the genuine over-read shown by c18_name_langid_e2e_defect_*'],
   'claims':'end to end on the real code: NameTable::NameTable(table) + getLanguageId(locale) + destructor on a 19-byte table: no access outside the table copy / the locale string, nothing leaks, the table is accepted exactly when the header tests hold, and the result is exactly 0x8000 + t for the FIRST language tag t of a format-1 table that lies inside the string storage and spells the locale in UTF-16BE (tag records wholly before the string storage), else the Locale2Lang id; refused tables give the Locale2Lang id'}@*/
-/*@unit {'name':'c18_name_langid_e2e_k20', 'props':['DEV_name'], 'final_props':['C01','C18'], 'entry':'h_langid_b', 'kind':'bounded', 'unwind':5, 'unwindset':['run_langid.0:22'], 'object_bits':11, 'loop_contracts':False,
+/*@unit {'name':'c18_name_langid_e2e_k20', 'props':['C01','C18'], 'entry':'h_langid_b', 'kind':'bounded', 'unwind':5, 'unwindset':['run_langid.0:22'], 'object_bits':11, 'loop_contracts':False,
   'defines':['U_LANGID_B','U_CTOR_BODY','LBK=20','TAGCOUNT_INSIDE'], 'checks':['--memory-leak-check'], 'witness_vars':['w_b','w_n','w_loc'],
   'bound':'name table of exactly 20 bytes (exact-size buffer, every byte arbitrary), locale strings of 0..2 characters (exact-size, characters arbitrary non-NUL)',
   'assumptions':['Locale2Lang::getMsId is cut (returns an arbitrary id); the Locale2Lang member constructor is cut', 'gralloc may fail',
                  'GAP: format-1 tables whose 16-bit language-tag count does not lie inside the table (length == 7 + 12*count) are excluded: they are the genuine over-read shown by c18_name_langid_e2e_defect_*'],
   'claims':'end to end on the real code: NameTable::NameTable(table) + getLanguageId(locale) + destructor on a 20-byte table: no access outside the table copy / the locale string, nothing leaks, the table is accepted exactly when the header tests hold, and the result is exactly 0x8000 + t for the FIRST language tag t of a format-1 table that lies inside the string storage and spells the locale in UTF-16BE (tag records wholly before the string storage), else the Locale2Lang id; refused tables give the Locale2Lang id'}@*/
-/*@unit {'name':'c18_name_langid_e2e_k31', 'props':['DEV_name'], 'final_props':['C01','C18'], 'entry':'h_langid_b', 'kind':'bounded', 'unwind':7, 'unwindset':['run_langid.0:33'], 'object_bits':11, 'loop_contracts':False,
+/*@unit {'name':'c18_name_langid_e2e_k31', 'props':['C01','C18'], 'entry':'h_langid_b', 'kind':'bounded', 'unwind':7, 'unwindset':['run_langid.0:33'], 'object_bits':11, 'loop_contracts':False,
   'defines':['U_LANGID_B','U_CTOR_BODY','LBK=31','TAGCOUNT_INSIDE'], 'checks':['--memory-leak-check'], 'witness_vars':['w_b','w_n','w_loc'],
   'bound':'name table of exactly 31 bytes (exact-size buffer, every byte arbitrary), locale strings of 0..2 characters (exact-size, characters arbitrary non-NUL)',
   'assumptions':['Locale2Lang::getMsId is cut (returns an arbitrary id); the Locale2Lang member constructor is cut', 'gralloc may fail',
                  'GAP: format-1 tables whose 16-bit language-tag count does not lie inside the table (length == 7 + 12*count) are excluded: they are the genuine over-read shown by c18_name_langid_e2e_defect_*'],
   'claims':'end to end on the real code: NameTable::NameTable(table) + getLanguageId(locale) + destructor on a 31-byte table: no access outside the table copy / the locale string, nothing leaks, the table is accepted exactly when the header tests hold, and the result is exactly 0x8000 + t for the FIRST language tag t of a format-1 table that lies inside the string storage and spells the locale in UTF-16BE (tag records wholly before the string storage), else the Locale2Lang id; refused tables give the Locale2Lang id'}@*/
-/*@unit {'name':'c18_name_langid_e2e_k32', 'props':['DEV_name'], 'final_props':['C01','C18'], 'entry':'h_langid_b', 'kind':'bounded', 'unwind':8, 'unwindset':['run_langid.0:34'], 'object_bits':11, 'loop_contracts':False,
+/*@unit {'name':'c18_name_langid_e2e_k32', 'props':['C01','C18'], 'entry':'h_langid_b', 'kind':'bounded', 'unwind':8, 'unwindset':['run_langid.0:34'], 'object_bits':11, 'loop_contracts':False,
   'defines':['U_LANGID_B','U_CTOR_BODY','LBK=32','TAGCOUNT_INSIDE'], 'checks':['--memory-leak-check'], 'witness_vars':['w_b','w_n','w_loc'],
   'bound':'name table of exactly 32 bytes (exact-size buffer, every byte arbitrary), locale strings of 0..2 characters (exact-size, characters arbitrary non-NUL)',
   'assumptions':['Locale2Lang::getMsId is cut (returns an arbitrary id); the Locale2Lang member constructor is cut', 'gralloc may fail',
                  'GAP: format-1 tables whose 16-bit language-tag count does not lie inside the table (length == 7 + 12*count) are excluded: they are the genuine over-read shown by c18_name_langid_e2e_defect_*'],
   'claims':'end to end on the real code: NameTable::NameTable(table) + getLanguageId(locale) + destructor on a 32-byte table: no access outside the table copy / the locale string, nothing leaks, the table is accepted exactly when the header tests hold, and the result is exactly 0x8000 + t for the FIRST language tag t of a format-1 table that lies inside the string storage and spells the locale in UTF-16BE (tag records wholly before the string storage), else the Locale2Lang id; refused tables give the Locale2Lang id'}@*/
-/*@unit {'name':'c18_name_langid_e2e_k40', 'props':['DEV_name'], 'final_props':['C01','C18'], 'entry':'h_langid_b', 'kind':'bounded', 'unwind':10, 'unwindset':['run_langid.0:42'], 'object_bits':11, 'loop_contracts':False,
+/*@unit {'name':'c18_name_langid_e2e_k40', 'props':['C01','C18'], 'entry':'h_langid_b', 'kind':'bounded', 'unwind':10, 'unwindset':['run_langid.0:42'], 'object_bits':11, 'loop_contracts':False,
   'defines':['U_LANGID_B','U_CTOR_BODY','LBK=40','TAGCOUNT_INSIDE'], 'checks':['--memory-leak-check'], 'witness_vars':['w_b','w_n','w_loc'],
   'bound':'name table of exactly 40 bytes (exact-size buffer, every byte arbitrary), locale strings of 0..2 characters (exact-size, characters arbitrary non-NUL)',
   'assumptions':['Locale2Lang::getMsId is cut (returns an arbitrary id); the Locale2Lang member constructor is cut', 'gralloc may fail',
                  'GAP: format-1 tables whose 16-bit language-tag count does not lie inside the table (length == 7 + 12*count) are excluded: they are the genuine over-read shown by c18_name_langid_e2e_defect_*'],
   'claims':'end to end on the real code: NameTable::NameTable(table) + getLanguageId(locale) + destructor on a 40-byte table: no access outside the table copy / the locale string, nothing leaks, the table is accepted exactly when the header tests hold, and the result is exactly 0x8000 + t for the FIRST language tag t of a format-1 table that lies inside the string storage and spells the locale in UTF-16BE (tag records wholly before the string storage), else the Locale2Lang id; refused tables give the Locale2Lang id'}@*/
-/*@unit {'name':'c18_name_langid_e2e_defect_19', 'props':['DEV_name_defect'], 'final_props':['C01'], 'entry':'h_langid_b', 'kind':'bounded', 'unwind':4, 'unwindset':['run_langid.0:21'], 'object_bits':11, 'loop_contracts':False,
+/*@unit {'name':'c18_name_langid_e2e_defect_19', 'props':['C01','C18'], 'entry':'h_langid_b', 'kind':'bounded', 'unwind':4, 'unwindset':['run_langid.0:21'], 'object_bits':11, 'loop_contracts':False,
   'defines':['U_LANGID_B','U_CTOR_BODY','LBK=19'], 'checks':['--memory-leak-check'], 'witness_vars':['w_b','w_n','w_loc'], 'replay':'name',
   'bound':'name table of exactly 19 bytes (exact-size buffer, every byte arbitrary), locale strings of 0..2 characters',
   'claims':'(EXPECTED TO FAIL on the unchanged tree: genuine defect) as c18_name_langid_e2e_k19 without the exclusion: a format-1 name table of exactly 7 + 12*count bytes passes the constructor and getLanguageId reads the 16-bit language-tag count one byte past the end of the copy'}@*/
-/*@unit {'name':'c18_name_langid_e2e_defect_31', 'props':['DEV_name_defect'], 'final_props':['C01'], 'entry':'h_langid_b', 'kind':'bounded', 'unwind':7, 'unwindset':['run_langid.0:33'], 'object_bits':11, 'loop_contracts':False,
+/*@unit {'name':'c18_name_langid_e2e_defect_31', 'props':['C01','C18'], 'entry':'h_langid_b', 'kind':'bounded', 'unwind':7, 'unwindset':['run_langid.0:33'], 'object_bits':11, 'loop_contracts':False,
   'defines':['U_LANGID_B','U_CTOR_BODY','LBK=31'], 'checks':['--memory-leak-check'], 'witness_vars':['w_b','w_n','w_loc'], 'replay':'name',
   'bound':'name table of exactly 31 bytes (exact-size buffer, every byte arbitrary), locale strings of 0..2 characters',
   'claims':'(EXPECTED TO FAIL on the unchanged tree: genuine defect) as c18_name_langid_e2e_k31 without the exclusion: a format-1 name table of exactly 7 + 12*count bytes passes the constructor and getLanguageId reads the 16-bit language-tag count one byte past the end of the copy'}@*/
-/*@unit {'name':'c18_label_api', 'props':['DEV_name'], 'final_props':['C01','C18','C16'], 'entry':'h_label', 'replace':['NameTable_getName'], 'unwind':4,
+/*@unit {'name':'c18_label_api', 'props':['C01','C18','C16'], 'entry':'h_label', 'replace':['NameTable_getName'], 'unwind':4,
   'defines':['U_API=1'], 'defines_quick':['U_API=1','MAXN=256'], 'checks':['--memory-leak-check'],
   'witness_vars':['w_null_fref','w_have_table','w_cached','w_value','w_setting','w_nset','w_len'],
   'assumptions':['NameTable::NameTable and NameTable::getName are stubs here: the constructor stub is a body that restates the contract proved by c18_namector (either refused: m_table = m_nameData = NULL, or a fresh block of `length` bytes with arbitrary contents satisfying NT_INV), getName returns NULL or a heap block it allocated (units c18_name_select_*, c01_getname_copy, c18_getname_*) and its precondition is NT_INV',
